@@ -30,6 +30,9 @@ pub fn domain() -> Box<dyn Domain> {
 // ---------------------------------------------------------------------------------------------
 // the callback
 
+/// read size that stands for "the callback fails at this invocation"
+const FAIL: usize = usize::MAX;
+
 struct FragCb {
     data: Vec<u8>,
     pos: usize,
@@ -43,6 +46,7 @@ impl Callback for FragCb {
         self.calls += 1;
         let remaining = self.data.len() - self.pos;
         let n = match self.ds.pop_front() {
+            Some(FAIL) => return Err(()),
             Some(d) => d.min(buffer.len()).min(remaining),
             None => {
                 if remaining == 0 {
@@ -252,7 +256,10 @@ fn read_all_file(total: &[u8], ds: &[usize], ask: &[i32]) -> Result<Out, String>
     let ds_v = ds.to_vec();
     let mut tmp: Option<std::path::PathBuf> = None;
     let mut writer: Option<std::thread::JoinHandle<()>> = None;
-    let file: std::fs::File = if ds.is_empty() {
+    let file: std::fs::File = if ds.first() == Some(&FAIL) {
+        // an I/O error at the first read: a directory opened as a file (EISDIR)
+        std::fs::File::open(std::env::temp_dir()).expect("open temp dir")
+    } else if ds.is_empty() {
         let pth = std::env::temp_dir().join(format!("tw-teehist-{}-{}.th", std::process::id(), SEQ.fetch_add(1, Ordering::SeqCst)));
         std::fs::write(&pth, &total_v).expect("write temp file");
         let f = std::fs::File::open(&pth).expect("open temp file");
@@ -281,7 +288,7 @@ fn read_all_file(total: &[u8], ds: &[usize], ask: &[i32]) -> Result<Out, String>
         let mut evs = vec![];
         let ferr = |e: &FErr| match e {
             FErr::Teehistorian(e) => err_str(&Error::Teehistorian(clone_ferr(e))),
-            FErr::Io(e) => format!("Io:{:?}", e.kind()),
+            FErr::Io(_) => "Cb".to_string(),
         };
         let new = match libtw2_teehistorian::Reader::new(file, &mut buf) {
             Ok((hd, rd)) => Ok((hd.version, rd)),
@@ -351,6 +358,16 @@ fn clone_ferr(e: &format::Error) -> format::Error {
 }
 
 fn parse_frag(total: usize, s: &str) -> Option<Vec<usize>> {
+    // `x<k>/<frag>`: fail at invocation k; before that the sizes of <frag>, then as much as fits
+    if let Some(rest) = s.strip_prefix('x') {
+        let (k, f) = rest.split_once('/')?;
+        let k: usize = k.parse().ok()?;
+        let mut ds = parse_frag(total, f)?;
+        ds.resize(k.max(ds.len()), total);
+        ds.truncate(k);
+        ds.push(FAIL);
+        return Some(ds);
+    }
     if s == "w" {
         return Some(vec![]);
     }
@@ -585,6 +602,37 @@ fn doc_ticks(msgs: &[Msg]) -> Vec<i64> {
 
 const HUGE_CID: i32 = 1 << 17;
 
+/// The records end with FINISH, every PLAYER_DIFF/PLAYER_OLD/INPUT_DIFF refers to a player/input
+/// that exists, no player is created twice, client ids of table records are non-negative and the
+/// documentation's tick numbers stay within `i32`.
+fn stream_is_valid(msgs: &[Msg], doc_ticks: &[i64]) -> bool {
+    if !matches!(msgs.last(), Some(Msg::Finish)) {
+        return false;
+    }
+    if doc_ticks.iter().any(|t| *t > i32::MAX as i64) {
+        return false;
+    }
+    let mut players = std::collections::BTreeSet::new();
+    let mut inputs = std::collections::BTreeSet::new();
+    for m in msgs {
+        let ok = match m {
+            Msg::New(c, _, _) => *c >= 0 && players.insert(*c),
+            Msg::Diff(c, _, _) => players.contains(c),
+            Msg::Old(c) => *c >= 0 && players.remove(c),
+            Msg::InputNew(c, _) => {
+                inputs.insert(*c);
+                *c >= 0
+            }
+            Msg::InputDiff(c, _) => *c >= 0 && inputs.contains(c),
+            _ => true,
+        };
+        if !ok {
+            return false;
+        }
+    }
+    true
+}
+
 /// The property itself, evaluated on one reading of the implementation.
 fn oracle_structure(stream: &[u8], has_ex: bool, out: &Out, o: &mut Oracle, ctx: &str) {
     // 1. nesting, strictly increasing tick numbers, every other item inside a tick
@@ -653,6 +701,10 @@ fn oracle_structure(stream: &[u8], has_ex: bool, out: &Out, o: &mut Oracle, ctx:
     }
     if out.fin == "end" && item_ticks.len() != expected.len() {
         o.fail("C17/fewer-items-than-records", format!("{} items, {} records {}", item_ticks.len(), expected.len(), ctx));
+    }
+    // 2b. a stream that is complete and consistent by the documentation must be read to its end
+    if out.fin != "end" && out.fin != "err:Cb" && stream_is_valid(&msgs, &dt) {
+        o.fail("C17/valid-stream-rejected", format!("the stream is complete and consistent, the reader stops with `{}` after {} items {}", out.fin, out.evs.len(), ctx));
     }
     // 3. positions and inputs are the wrapping running sums of the recorded differences
     let mut pos: BTreeMap<i32, (i64, i64)> = BTreeMap::new(); // exact sums
@@ -762,6 +814,39 @@ fn oracle_structure(stream: &[u8], has_ex: bool, out: &Out, o: &mut Oracle, ctx:
     }
 }
 
+/// doc/teehistorian.md, "Header": the teehistorian UUID 699db17b-8efb-34ff-b1d8-da6f60c15dd1 as 16
+/// bytes, then a NUL-terminated JSON object whose `version` must be "1" or "2".  (The JSON itself is
+/// valid in every generated request; `ver` is the version it carries.)
+fn oracle_header(total: &[u8], ver: &str, out: &Out, failing: bool, o: &mut Oracle, frag: &str) {
+    const DOC_MAGIC: [u8; 16] = [0x69, 0x9d, 0xb1, 0x7b, 0x8e, 0xfb, 0x34, 0xff, 0xb1, 0xd8, 0xda, 0x6f, 0x60, 0xc1, 0x5d, 0xd1];
+    if failing && out.fin == "err:Cb" {
+        return;
+    }
+    let expected: Option<&str> = if total.len() < 16 {
+        Some("err:UnexpectedEnd")
+    } else if total[..16] != DOC_MAGIC {
+        Some("err:Header")
+    } else if !total[16..].contains(&0) {
+        Some("err:UnexpectedEnd")
+    } else if ver != "1" && ver != "2" {
+        Some("err:UnknownVersion")
+    } else {
+        None
+    };
+    match expected {
+        Some(e) => {
+            if out.fin != e || !out.evs.is_empty() {
+                o.fail("C17/header-framing", format!("frag={} expected `{}` and no items, got `{}`", frag, e, clip(&out.line)));
+            }
+        }
+        None => {
+            if out.header_version.is_none() {
+                o.fail("C17/header-framing", format!("frag={} a complete valid header was rejected: `{}`", frag, clip(&out.line)));
+            }
+        }
+    }
+}
+
 // ---------------------------------------------------------------------------------------------
 // runner
 
@@ -787,7 +872,21 @@ impl Runner for R {
                 let r = if *op == "file" { read_all_file(&total, &ds, &ask) } else { read_all_q(&total, &ds, &ask) };
                 // oracle: independent of the fragmentation; no panic; tick structure; sums
                 let whole = if ds.is_empty() && *op != "file" { Ok(None) } else { read_all(&total, &[]).map(Some) };
+                let failing = ds.contains(&FAIL);
+                if let Ok(a) = &r {
+                    oracle_header(&total, ver, a, failing, o, frag);
+                }
                 match (&r, &whole) {
+                    (Ok(a), Ok(Some(b))) if failing => {
+                        // a failing callback: its error after a prefix of the items, or no difference
+                        let prefix = a.evs.len() <= b.evs.len() && a.evs[..] == b.evs[..a.evs.len()];
+                        if !((a.fin == "err:Cb" && prefix) || a.line == b.line) {
+                            o.fail("C17/callback-error-not-prefix", format!("frag={} gives `{}`, unfragmented `{}`", frag, clip(&a.line), clip(&b.line)));
+                        }
+                        if a.header_version.is_some() {
+                            oracle_structure(&stream, has_ex_of(ver), a, o, &format!("(frag={})", frag));
+                        }
+                    }
                     (Ok(a), Ok(b)) => {
                         if b.as_ref().map(|b| a.line != b.line).unwrap_or(false) {
                             let b = b.as_ref().unwrap();
@@ -1593,26 +1692,57 @@ impl Domain for D {
                 emit(w, "hash", 2, &hdr2, &s.0, &frag_random(&mut rng, target + 100));
             }
         }
+        // the header's framing: cut at every position (no stream behind it), wrong magic, missing
+        // NUL, unsupported versions; each under several fragmentations
+        {
+            let d11: Vec<u8> = vec![0x42, 2, 0, 0, 0x42, 3, 0, 0, 0x41, 0, 2, 1, 1, 0x40];
+            let step = if thorough { 1 } else { 7 };
+            for hdr in [&hdr2, &hdr1] {
+                let ver = if hdr.len() == hdr1.len() && hdr[..] == hdr1[..] { 1 } else { 2 };
+                let mut cut = 0;
+                while cut < hdr.len() {
+                    for f in ["w", "b", "l:5,0,11,3"] {
+                        emit(w, "hash", ver, &hdr[..cut], &[], f);
+                    }
+                    cut += if cut < 20 || cut + 3 >= hdr.len() { 1 } else { step };
+                }
+                for k in [0usize, 7, 15] {
+                    let mut bad = hdr.to_vec();
+                    bad[k] ^= 0x20;
+                    for f in ["w", "b", "s:16", "s:15"] {
+                        emit(w, "run", ver, &bad, &d11, f);
+                    }
+                    emit(w, "all2", ver, &bad[..24], &[], "");
+                }
+                emit(w, "all2", ver, hdr, &d11, "");
+            }
+            // `Error::Io` through the public reader: the very first read fails
+            emit(w, "file", 2, &hdr2, &d11, "x0/w");
+            for v in [0u32, 3, 7] {
+                let h = header(v, 0);
+                for f in ["w", "b", "l:16,1,1,400"] {
+                    emit(w, "run", v, &h, &d11, f);
+                }
+            }
+        }
         // exhaustive: every stream of 0, 1 (and, thorough, 2) bytes, both format versions
         for n in 0..=1 {
             writeln!(w, "sweep 2 {} {} -", to_hex(&hdr2), n).unwrap();
             writeln!(w, "sweep 1 {} {} -", to_hex(&hdr1), n).unwrap();
         }
         if thorough {
-            // all two-byte streams (split by first byte), and all three-byte streams that start
-            // with PLAYER_DIFF 0, TICK_SKIP or PLAYER_NEW
+            // all two-byte streams (split by first byte)
             for p in 0..256u32 {
                 writeln!(w, "sweep 2 {} 1 {:02x}", to_hex(&hdr2), p).unwrap();
                 writeln!(w, "sweep 1 {} 1 {:02x}", to_hex(&hdr1), p).unwrap();
             }
-            for p in [0x00u32, 0x41, 0x42] {
-                for q in 0..256u32 {
-                    writeln!(w, "sweep 2 {} 1 {:02x}{:02x}", to_hex(&hdr2), p, q).unwrap();
-                }
+            // all three-byte streams (version 2), split by first byte
+            for p in 0..256u32 {
+                writeln!(w, "sweep 2 {} 2 {:02x}", to_hex(&hdr2), p).unwrap();
             }
         }
         // random server histories
-        let n_hist = if thorough { 300 } else { 56 };
+        let n_hist = if thorough { 800 } else { 112 };
         for k in 0..n_hist {
             let ver = if rng.chance(1, 6) { 1 } else { 2 };
             let hv = if rng.chance(1, 5) { 1 + rng.below(2) as u32 } else { 0 };
@@ -1630,7 +1760,14 @@ impl Domain for D {
                 emit(w, "file", ver, &hdr, &s, &f);
             }
             emit(w, if total > 3000 { "hash" } else { "run" }, ver, &hdr, &s, "b");
-            if total <= (if thorough { 1500 } else { 800 }) {
+            // a callback that fails at some invocation
+            for _ in 0..2 {
+                let f = frag_random(&mut rng, total);
+                let calls = f.matches(',').count() + 2;
+                let k = rng.below(calls as u64 + 1);
+                emit(w, if total > 3000 { "hash" } else { "run" }, ver, &hdr, &s, &format!("x{}/{}", k, f));
+            }
+            if total <= (if thorough { 2500 } else { 800 }) {
                 emit(w, "all2", ver, &hdr, &s, "");
             } else {
                 for _ in 0..(if thorough { 60 } else { 6 }) {
